@@ -354,6 +354,7 @@ func __nilSlice[T any](a []T) bool { return true }
 func __disjoint[T any](a, b []T) bool { return true }
 func __sameSlice[T any](a, b []T) bool { return true }
 func __allocated[T any](p *T) bool { return true }
+func __same[T any](a, b T) bool { return true }
 func __arrayAllocated[T any](l []T) bool { return true }
 func __allocatedElemsKept[T any](witness []T) bool { return true }
 func __elemsUnchangedExcept[T any](l []T) bool { return true }
@@ -507,7 +508,7 @@ func splitTop(s string, sep byte) []string {
 
 var (
 	oldRe    = regexp.MustCompile(`\bold\(`)
-	forallRe = regexp.MustCompile(`\b(forall|forall2|forall3|exists|exists2|ite|visited|sentN|sentAt|recvN|recvAt|closed|held|rheld|fresh|mapEq|sameElems|sameArray|sameSlice|allocatedElemsKept|allocated|arrayAllocated|nilSlice|disjoint|elemsUnchangedExcept|elemsUnchangedExcept2|spawnN|spawnArg|spawnIs|logN|logAt\[[A-Za-z0-9_.*\[\]]+\])\(`)
+	forallRe = regexp.MustCompile(`\b(forall|forall2|forall3|exists|exists2|ite|visited|sentN|sentAt|recvN|recvAt|closed|held|rheld|fresh|mapEq|sameElems|sameArray|sameSlice|allocatedElemsKept|allocated|arrayAllocated|same|nilSlice|disjoint|elemsUnchangedExcept|elemsUnchangedExcept2|spawnN|spawnArg|spawnIs|logN|logAt\[[A-Za-z0-9_.*\[\]]+\])\(`)
 	assertRe = regexp.MustCompile(`\bassert\(`)
 )
 
